@@ -376,6 +376,7 @@ func checkC03(e *Engine, r *Report) {
 			}
 			return false, false
 		}, Target: getsCores})
+		checkReservedOptOut(e, r, fn, "R2 eligibility table")
 		r.Check("R2:eligibility#sub-core", "R2 eligibility table", "a request below one full CPU gets no exclusive CPUs", e.Pos(fn.Pos()), fn, p == nil, e.pathString(p), true)
 		beOnly := andAssume(qosIs("BestEffort"), func(cond ssa.Value) (bool, bool) {
 			// none of the earlier special cases applies
